@@ -102,7 +102,7 @@ def gen_search_patterns(rng, tree, vpattern, pep_ok, count, first_marker, allow_
             suffix = rng.choice([" # latest", " ; stable", " #tag; x", ' # "quoted"'])
         elif shape == "G":
             # literal text with characters that must be matched literally
-            lit = rng.choice(["(c)", "v.", "a+b", "what?", "x*", "f(x)", "\\[tag\\]", "<->", "::"])
+            lit = rng.choice(["(c)", "v.", "a+b", "what?", "x*", "f(x)", "\\[tag\\]", "<->", "::", "100%", "%(name)s", "sem%20ver", "%%"])
             prefix, region, suffix = "%s %s " % (m, lit), "{version}", rng.choice(["", " " + lit])
         else:
             if not names:
@@ -486,7 +486,8 @@ def gen_project(rng, mode="plain", syntaxes=None, allow_mixed=True, max_files=4,
         if v or rng.random() < 0.5:
             cfg[k] = v
     if rng.random() < 0.4:
-        cfg["commit_message"] = "bump {old_version} -> {new_version}"
+        cfg["commit_message"] = rng.choice(["bump {old_version} -> {new_version}", "bump {old_version} -> {new_version}",
+                                            "release {new_version} (100% tested)"])
     if rng.random() < 0.3:
         cfg["tag_message"] = rng.choice(["rel {new_version}", ""])
     cfg_regime = rng.choice(["lf", "lf", "lf", "lf", "crlf"])
